@@ -72,6 +72,7 @@ func derivesFromLen(v ssa.Value, depth int) bool {
 
 // C12: neutral constant agreement.
 func C12(p *load.Prog, r *oblig.Run) {
+	defer memoKeys(p, r, "R12.h")
 	r.Explanation = "One structural clause (E5). R12.a: in every function or method named Similarity of the library package, a constant returned from a missing-operand guard - a return block reached only over the true edges of `x == nil` tests (receiver or argument) or of zero-length tests - is the neutral 0.5 " +
 		"(1 only when both lengths are tested to be zero together); the padding factor for unmatched individuals in IndividualNodes.Similarity and the 'no parents found' default of SurroundingSimilarity are the same 0.5."
 	r.NotDecided = "that scores lie in [0,1], symmetry, monotonicity of the date parabola, maximality on identity: floating-point value universals that have no structural form."
@@ -268,6 +269,11 @@ func C10(p *load.Prog, r *oblig.Run) {
 	c10Errors(p, r)
 	// the merged individual holds the facts of both originals only if MergeNodes accounts for every right child (C09's path rule)
 	c09Accounts(p, r)
+	// a document merge runs the matching pipeline of IndividualNodes.Compare: a stage that never finishes, pairs the wrong
+	// lists or partitions the jobs wrongly loses or duplicates people in the merged document (C11's structural rules)
+	if cmpRoot := p.Method(load.PkgRoot, "IndividualNodes", "Compare"); cmpRoot != nil {
+		pipelineStructure(p, r, cg.New(p, false), cmpRoot)
+	}
 	fn := p.Method(load.PkgRoot, "IndividualNodes", "Merge")
 	mn := p.Func(load.PkgRoot, "MergeNodes")
 	if fn == nil || mn == nil {
@@ -939,6 +945,7 @@ func exprShape(v ssa.Value, depth int) string {
 // c12More: R12.c (stable ordering of the pair scores) and R12.d (both strings
 // are normalised the same way).
 func c12More(p *load.Prog, r *oblig.Run) {
+	c12Identity(p, r)
 	c12Weights(p, r)
 	r.Rule("R12.c", "the greedy matching in IndividualNodes.Similarity orders equal scores deterministically (stable sort)", 1)
 	r.Rule("R12.d", "StringSimilarity normalises both strings with the same chain of operations", 1)
